@@ -79,6 +79,7 @@ namespace {
     if (k == "conv" || k == "needconv") return "conv_" + n("c");
     if (k == "ovdef" || k == "ovcall") return "ov_" + n("j") + "_" + n("t");
     if (k == "use" || k == "calluse") return "from_use";
+    if (k == "mkglobnv" || k == "readnv") return "nv_" + n("j");
     if (k == "klass" || k == "knew") return "K_" + n("id");
     if (k == "addtype" || k == "readtype") return "ty_" + n("j");
     return "";
@@ -109,7 +110,7 @@ namespace {
         J op = J::object();
         const int a = int(plan.below(uint64_t(T)));
         op["a"] = J(a);
-        const int kind = int(plan.below(27));
+        const int kind = int(plan.below(28));
         switch (kind) {
         case 0:
           op["k"] = J("shared");
@@ -246,6 +247,13 @@ namespace {
           op["k"] = J("readtype");
           op["j"] = J(int(plan.below(2)));
           break;
+        case 27:
+          // a name that is a function from the start becomes a global as well (globals win): long-lived reader
+          // functions, already evaluated by several threads, must see the global once its registration has returned
+          op["k"] = J(plan.chance(350) ? "mkglobnv" : "readnv");
+          op["j"] = J(int(plan.below(2)));
+          op["v"] = J(value_ctr++);
+          break;
         case 26:
           // a std::function made from a script function by the thread that built the engine, invoked by an actor;
           // the call needs a registered conversion, whose per-thread bookkeeping must be the CALLING thread's
@@ -375,6 +383,7 @@ namespace {
       chai->add(fun([](const ConvB &b) { return b.v; }), "takes_b");
       chai->add(fun([](const ConvC &c) { return c.v; }), "takes_c");
       chai->eval("def shared_f(x) { var y = x * 2; var z = y + 1; t(z); return z }");
+      chai->eval("def nv0() { 0 }; def nv1() { 0 }; def read_nv0() { return nv0 }; def read_nv1() { return nv1 }");
       const AST_NodePtr shared_tree = chai->parse("fun(a) { var y = a * 2; var z = y + 1; return z }(21)");
 
       // ops per actor, in plan order
@@ -534,6 +543,17 @@ namespace {
                   out = "!" + describe_current_exception(&e);
                 }
               }
+            } else if (k == "mkglobnv") {
+              try {
+                e.add_global(var(int(num("v"))), "nv" + sn("j"));
+                out = "=void";
+              } catch (const exception::name_conflict_error &) {
+                out = "!name_conflict|";
+              } catch (...) {
+                out = "!" + describe_current_exception(&e);
+              }
+            } else if (k == "readnv") {
+              out = eval_show(e, "read_nv" + sn("j") + "()");
             } else if (k == "callcb") {
               try {
                 CbDerived d;
@@ -703,6 +723,14 @@ namespace {
         } else if (k == "usebad") {
           ++usebad_ops;
           if (out != "!Boxed_Value|s:bad file") bad("use() of a file that throws must deliver the file's exception");
+        } else if (k == "mkglobnv") {
+          if (out == "=void") add_op(LinOp::Add, op.at("v").num(), true);
+          else if (out == "!name_conflict|") add_op(LinOp::Add, op.at("v").num(), false);
+          else bad("add_global under the name of a function");
+        } else if (k == "readnv") {
+          if (out.rfind("=i:", 0) == 0) add_op(LinOp::Read, atoll(out.c_str() + 3), true);
+          else if (out.rfind("=T:", 0) == 0 || out.rfind("=fn", 0) == 0) add_op(LinOp::Read, -1, true); // still the function object
+          else bad("reader of a name that is a function and may have become a global");
         } else if (k == "callcb") {
           if (out != "=i:" + std::to_string(op.at("v").num())) bad("callback made from a script function, invoked by another thread");
           r.counters["probe_callback_invoked_by_another_thread_than_its_maker"] += 1;
